@@ -129,8 +129,6 @@ struct Leaf {
     name: String,
     /// 'B' builtin, 'C' closure, 'T' type
     kind: char,
-    /// Rust struct as the running program reports it (Debug), for builtins
-    rt_struct: String,
     /// Rust struct according to the generated table (what the model is instantiated with)
     family: String,
     obj: Obj,
@@ -223,11 +221,10 @@ impl Ctx {
 /// builtins that touch files, processes, the network, the clock, stdin, or random state, or that
 /// end / suspend the process; output-only ones (print, echo, write, debug) go to a sink
 const EXCLUDED: &[&str] = &[
-    "read", "input", "interact", "read_file", "read_file?", "read_file_bytes", "read_file_bytes?",
-    "write_file", "append_file", "list_files", "path_parent", "path_join", "run_process", "time", "now", "sleep",
-    "request", "request_bytes", "request_json", "import", "exit", "random", "random_bytes", "random_range",
-    "shuffle", "choose", "getenv", "get_env", "args", "os_rng", "print", "echo", "write", "debug", "flush",
-    "assert", "HACK_freeze", "eval", "vars", "input_lines", "read_compressed",
+    "read", "read_bytes", "read_compressed", "input", "interact", "interact_lines", "read_file", "read_file?",
+    "read_file_bytes", "read_file_bytes?", "write_file", "append_file", "list_files", "run_process", "time", "now",
+    "sleep", "request", "request_bytes", "request_json", "random", "random_bytes", "random_range", "shuffle", "choose",
+    "eval", "vars", "par_each", "par_map",
 ];
 /// (name, reason): callables that cannot be swept with arbitrary small arguments without hanging
 /// or exhausting memory; they are still exercised with the arguments in `SAFE_KINDS`
@@ -364,7 +361,7 @@ enum FTerm {
     B(usize),
     C(usize),
     T(usize),
-    X(usize),
+    X,
     P1(Box<FTerm>, Term),
     P2(Box<FTerm>, Term),
     PL(Box<FTerm>, Term),
@@ -489,7 +486,10 @@ impl<'a> P<'a> {
             "B" => FTerm::B(self.num()),
             "C" => FTerm::C(self.num()),
             "T" => FTerm::T(self.num()),
-            "X" => FTerm::X(self.num()),
+            "X" => {
+                self.num();
+                FTerm::X
+            }
             "P1" | "P2" | "PL" => {
                 let f = self.fterm()?;
                 self.eat(b',');
@@ -569,19 +569,19 @@ enum Fail {
     Throw,
     Panic,
     /// the term uses something the harness cannot rebuild (reported, never judged)
-    Unresolvable(String),
+    Unresolvable,
 }
 impl<'a> Binding<'a> {
     fn leaf_obj(&self, id: usize) -> Result<Obj, Fail> {
         if id >= 100 {
-            return self.args.get(id - 100).cloned().ok_or(Fail::Unresolvable(format!("arg closure {}", id)));
+            return self.args.get(id - 100).cloned().ok_or(Fail::Unresolvable);
         }
-        self.leaves.get(id).map(|l| l.obj.clone()).ok_or(Fail::Unresolvable(format!("leaf {}", id)))
+        self.leaves.get(id).map(|l| l.obj.clone()).ok_or(Fail::Unresolvable)
     }
     fn leaf_func(&self, id: usize) -> Result<(Func, Precedence), Fail> {
         match self.leaf_obj(id)? {
             Obj::Func(f, p) => Ok((f, p)),
-            _ => Err(Fail::Unresolvable(format!("leaf {} is not a function", id))),
+            _ => Err(Fail::Unresolvable),
         }
     }
     fn out(&self, o: Out) -> Result<Obj, Fail> {
@@ -593,7 +593,7 @@ impl<'a> Binding<'a> {
     }
     fn val(&self, t: &Term) -> Result<Obj, Fail> {
         match t {
-            Term::Arg(i) => self.args.get(*i).cloned().ok_or(Fail::Unresolvable(format!("${}", i))),
+            Term::Arg(i) => self.args.get(*i).cloned().ok_or(Fail::Unresolvable),
             Term::List(ts) => Ok(Obj::list(ts.iter().map(|t| self.val(t)).collect::<Result<Vec<_>, _>>()?)),
             Term::Fun(f) => match &**f {
                 // a leaf used as a value keeps the precedence it has in the environment
@@ -616,7 +616,7 @@ impl<'a> Binding<'a> {
                                 ("b2", 2) => b.run2(&env, args[0].clone(), args[1].clone()),
                                 _ => b.run(&env, args.clone()),
                             })),
-                            _ => Err(Fail::Unresolvable("body of a non-builtin".into())),
+                            _ => Err(Fail::Unresolvable),
                         }
                     }
                     "cl" | "ty" | "x" => {
@@ -632,7 +632,7 @@ impl<'a> Binding<'a> {
                         let (x, i) = (args[0].clone(), args[1].clone());
                         self.out(guard(|| noulith::index(x, i)))
                     }
-                    other => Err(Fail::Unresolvable(format!("opaque {}", other))),
+                    _ => Err(Fail::Unresolvable),
                 }
             }
         }
@@ -642,14 +642,14 @@ impl<'a> Binding<'a> {
             .map(|s| match s {
                 Some(Ok(t)) => Ok(Ok(self.val(t)?)),
                 Some(Err(b)) => Ok(Err(*b)),
-                None => Err(Fail::Unresolvable("slot".into())),
+                None => Err(Fail::Unresolvable),
             })
             .collect()
     }
     fn func(&self, f: &FTerm) -> Result<Func, Fail> {
         Ok(match f {
             FTerm::B(id) | FTerm::C(id) | FTerm::T(id) => self.leaf_func(*id)?.0,
-            FTerm::X(_) => return Err(Fail::Unresolvable("other func".into())),
+            FTerm::X => return Err(Fail::Unresolvable),
             FTerm::P1(f, x) => Func::PartialApp1(Box::new(self.func(f)?), Box::new(self.val(x)?)),
             FTerm::P2(f, x) => Func::PartialApp2(Box::new(self.func(f)?), Box::new(self.val(x)?)),
             FTerm::PL(f, x) => Func::PartialAppLast(Box::new(self.func(f)?), Box::new(self.val(x)?)),
@@ -662,7 +662,7 @@ impl<'a> Binding<'a> {
             FTerm::CH(s, op, o) => {
                 let loc = match self.ctx.cache.borrow().values().flatten().next() {
                     Some(e) => e.start,
-                    None => return Err(Fail::Unresolvable("no location".into())),
+                    None => return Err(Fail::Unresolvable),
                 };
                 let prec = match &**op {
                     FTerm::B(id) | FTerm::C(id) | FTerm::T(id) => self.leaf_func(*id)?.1,
@@ -678,7 +678,7 @@ impl<'a> Binding<'a> {
                 };
                 Func::ChainSection(seed, Box::new(vec![(loc, loc, Box::new(self.func(op)?), prec, opd)]))
             }
-            FTerm::Other(o) => return Err(Fail::Unresolvable(format!("func {}", o))),
+            FTerm::Other(_) => return Err(Fail::Unresolvable),
         })
     }
     /// class text of a predicted outcome, or None when it cannot be resolved
@@ -689,7 +689,7 @@ impl<'a> Binding<'a> {
                 Ok(v) => Some(class(&Out::Ok(v))),
                 Err(Fail::Throw) => Some("throw".into()),
                 Err(Fail::Panic) => Some("panic".into()),
-                Err(Fail::Unresolvable(_)) => None,
+                Err(Fail::Unresolvable) => None,
             },
         }
     }
@@ -789,13 +789,13 @@ fn leaves_of(ctx: &Ctx, table: &Table, rep: &mut Report) -> Vec<Leaf> {
                         &format!("registered as {}", rt), &format!("table says {}", family), &format!("registered as {}", rt));
                 }
                 seen_in_env.insert(n.clone());
-                out.push(Leaf { name: n, kind: 'B', rt_struct: rt, family, obj });
+                out.push(Leaf { name: n, kind: 'B', family, obj });
             }
             Obj::Func(Func::Type(_), _) => {
-                out.push(Leaf { name: n, kind: 'T', rt_struct: "Type".into(), family: "Type".into(), obj })
+                out.push(Leaf { name: n, kind: 'T', family: "Type".into(), obj })
             }
             Obj::Func(Func::Closure(_), _) => {
-                out.push(Leaf { name: n, kind: 'C', rt_struct: "Closure".into(), family: "Closure".into(), obj })
+                out.push(Leaf { name: n, kind: 'C', family: "Closure".into(), obj })
             }
             _ => {}
         }
@@ -1031,20 +1031,6 @@ fn tk_val(t: &[&str], i: &mut usize) -> Option<Term> {
 }
 
 // ---------------------------------------------------------------------------------------------
-struct Sweep<'a> {
-    ctx: &'a Ctx,
-    rep: Report,
-    /// request text -> driver response
-    model: HashMap<String, String>,
-    pending: Vec<Case>,
-    progress: Option<String>,
-}
-struct Case {
-    callable: usize,
-    args: Vec<usize>,
-    form: &'static str,
-}
-
 fn request_for(c: &Callable, form: &str, args: &[&PoolVal]) -> String {
     let mut s = format!("form {} {} {}", model_form(form), args.len(), c.tokens);
     for (i, a) in args.iter().enumerate() {
@@ -1199,6 +1185,13 @@ fn run_tuple(
                 continue;
             }
         }
+        if rust != spec || rust != imp {
+            let n = rep.arms.get(&format!("disagreements of {}", key)).cloned().unwrap_or(0);
+            rep.arm(&format!("disagreements of {}", key));
+            if n >= 3 {
+                continue; // keep room in the report for other keys
+            }
+        }
         rep.judge(&key, &input, &rust, &imp, &spec);
     }
 }
@@ -1315,7 +1308,13 @@ fn shard_main(args: &Args, shard: usize, nshards: usize, progress: &str) {
     let mut rng = Rng::new(args.seed ^ (shard as u64).wrapping_mul(0x9E37));
     for c in &mine {
         let _ = std::fs::write(progress, format!("{}", c.src));
-        let risky = c.leaves.iter().any(|l| NO_BIG.contains(&l.name.as_str()));
+        let risky = c.leaves.iter().any(|l| {
+            let own = match &l.obj {
+                Obj::Func(Func::Builtin(b), _) => b.builtin_name().to_string(),
+                _ => l.name.clone(),
+            };
+            NO_BIG.contains(&l.name.as_str()) || NO_BIG.contains(&own.as_str())
+        });
         let usable: Vec<&PoolVal> = pool
             .iter()
             .filter(|p| !(risky && (p.src.contains("2^6") || p.src == "7")))
@@ -1443,7 +1442,10 @@ fn replay(args: &Args, path: &str) {
         }
         let refs: Vec<&PoolVal> = vals.iter().collect();
         let forms: Vec<&'static str> = forms_for(refs.len()).into_iter().filter(|f| *f == form).collect();
-        let reqs: Vec<String> = forms.iter().map(|f| request_for(&c, f, &refs)).collect();
+        let mut reqs: Vec<String> = forms.iter().map(|f| request_for(&c, f, &refs)).collect();
+        if refs.len() == 2 {
+            reqs.push(request_for(&c, "call", &[refs[1]]));
+        }
         let resp = run_driver(&args.driver, &reqs);
         let model: HashMap<String, String> = reqs.into_iter().zip(resp.into_iter()).collect();
         run_tuple(&ctx, &mut rep, &model, &c, &refs, &forms, true);
